@@ -262,6 +262,35 @@ def badcand_service_ops(draw) -> list:
              "label": "bad-candidate:" + bad["enc"]}]
 
 
+def gnr_service_ops(draw) -> list:
+    """a layer with a GLOBAL-NEG-RESPONSE: layer decode of valid global negative responses to its services"""
+    from hypothesis import strategies as st
+    u8 = {"t": "std", "bt": "A_UINT32", "bl": 8, "enc": None, "hl": None}
+
+    def dop(i):
+        return {"k": "simple", "id": f"d{i}", "dct": dict(u8), "compu": {"c": "IDENTICAL"}, "pt": "A_UINT32"}
+    sids = draw(st.lists(st.integers(1, 0x3E), min_size=1, max_size=2, unique=True))
+    msgs = []
+    for i, sid in enumerate(sids):
+        msgs.append({"kind": "request", "id": f"rq{i}", "params": [
+            {"pk": "const", "name": "sid", "pos": 0, "bit": 0, "dct": dict(u8), "v": sid},
+            {"pk": "value", "name": "arg", "pos": 1, "bit": 0, "dop": dop(f"a{i}"), "default": None}]})
+    for i, sid in enumerate(sids):
+        msgs.append({"kind": "response", "rtype": "POS-RESPONSE", "id": f"pr{i}", "svc": i, "params": [
+            {"pk": "const", "name": "sid", "pos": 0, "bit": 0, "dct": dict(u8), "v": sid + 0x40},
+            {"pk": "value", "name": "res", "pos": 1, "bit": 0, "dop": dop(f"r{i}"), "default": None}]})
+    msgs.append({"kind": "response", "rtype": "GLOBAL-NEG-RESPONSE", "id": "gnr", "params": [
+        {"pk": "const", "name": "sid", "pos": 0, "bit": 0, "dct": dict(u8), "v": 0x7F},
+        {"pk": "matchreq", "name": "rqsid", "pos": 1, "rpos": 0, "n": 1},
+        {"pk": "value", "name": "code", "pos": 2, "bit": 0, "dop": dop("c"), "default": None}]})
+    ops = []
+    for sid in sids:
+        code = draw(st.integers(0, 255))
+        ops.append({"op": "multi-layer-decode", "msgs": msgs, "data": bytes([0x7F, sid, code]).hex(),
+                    "request": bytes([sid, 1]).hex(), "label": "global-negative-response"})
+    return ops
+
+
 def run_op(op, cache: dict):
     """executed inside a worker; returns the outcome under the *current* strict_mode"""
     from vlib import emit
@@ -545,7 +574,7 @@ def run_shard(spec, seed, tier):
 
     @st.composite
     def nrc_strat(draw):
-        return nrc_service_ops(draw) + physconst_service_ops(draw) + badcand_service_ops(draw)
+        return nrc_service_ops(draw) + physconst_service_ops(draw) + badcand_service_ops(draw) + gnr_service_ops(draw)
 
     @hypothesis.seed(seed + 1)
     @core.hyp_settings(max(10, n // 10), shrink=False)
